@@ -485,40 +485,7 @@ func (g *G) Mutate(w *W) {
 	}
 	switch c := r.Intn(100); {
 	case c < 55 && len(w.Spots) > 0:
-		s := w.Spots[r.Intn(len(w.Spots))]
-		if s.Off+s.Width > len(w.B) {
-			return
-		}
-		cur := int(w.B[s.Off])
-		if s.Width == 2 {
-			cur = cur<<8 | int(w.B[s.Off+1])
-		}
-		max := 1<<(8*uint(s.Width)) - 1
-		nv := cur
-		switch r.Intn(8) {
-		case 0:
-			nv = cur + 1
-		case 1:
-			nv = cur - 1
-		case 2:
-			nv = cur + r.Intn(6)
-		case 3:
-			nv = cur - r.Intn(6)
-		case 4:
-			nv = 0
-		case 5:
-			nv = max - r.Intn(3)
-		case 6:
-			nv = r.Intn(max + 1)
-		case 7:
-			nv = cur ^ (1 << uint(r.Intn(8*s.Width)))
-		}
-		nv &= max
-		if s.Width == 2 {
-			w.set16(s.Off, nv)
-		} else {
-			w.B[s.Off] = byte(nv)
-		}
+		g.MutateSpot(w)
 	case c < 70:
 		w.B = w.B[:r.Intn(len(w.B)+1)] // truncate
 	case c < 80:
@@ -536,6 +503,48 @@ func (g *G) Mutate(w *W) {
 			i := 19 + r.Intn(len(w.B)-19)
 			w.B = append(w.B[:i], w.B[i+1:]...)
 		}
+	}
+}
+
+// MutateSpot changes one length / count / prefix-length / flags field of the message.
+func (g *G) MutateSpot(w *W) {
+	r := g.R
+	if len(w.Spots) == 0 {
+		return
+	}
+	s := w.Spots[r.Intn(len(w.Spots))]
+	if s.Off+s.Width > len(w.B) {
+		return
+	}
+	cur := int(w.B[s.Off])
+	if s.Width == 2 {
+		cur = cur<<8 | int(w.B[s.Off+1])
+	}
+	max := 1<<(8*uint(s.Width)) - 1
+	nv := cur
+	switch r.Intn(8) {
+	case 0:
+		nv = cur + 1
+	case 1:
+		nv = cur - 1
+	case 2:
+		nv = cur + r.Intn(6)
+	case 3:
+		nv = cur - r.Intn(6)
+	case 4:
+		nv = 0
+	case 5:
+		nv = max - r.Intn(3)
+	case 6:
+		nv = r.Intn(max + 1)
+	case 7:
+		nv = cur ^ (1 << uint(r.Intn(8*s.Width)))
+	}
+	nv &= max
+	if s.Width == 2 {
+		w.set16(s.Off, nv)
+	} else {
+		w.B[s.Off] = byte(nv)
 	}
 }
 
